@@ -19,3 +19,9 @@ func TestSelfDM(t *testing.T) {
 		t.Fatal(err)
 	}
 }
+
+func TestSelfPDF417(t *testing.T) {
+	if err := SelfTestPDF417(); err != nil {
+		t.Fatal(err)
+	}
+}
